@@ -395,6 +395,10 @@ PROPERTIES["C11"] = {
            "thorough": "histories of 5 operations"},
           params={"quick": {"ops": 4}, "thorough": {"ops": 5}}, budget={"quick": 400, "thorough": 2400},
           required_covers=["c11.gate.released-after-finalize", "c11.gate.wouldblock-while-pending"]),
+        M("c11_router_recv_blocking", "d_c11", "router_recv_blocking",
+          {"quick": "RouterSocket::recv_logical_finalized in blocking / timed mode (coroutine MIR: the loop around a biased tokio::select! over the identity-finalized Notify, AddressedIngressEngine::pop and the RCVTIMEO deadline) over the real ingress engine with two connections; RCVTIMEO -1 or any positive value (symbolic); symbolic monotone clock read by Instant::now() and by every timer arming, sleep_until / sleep recording what they were armed with; all histories of 4 events from {message arrives on connection 0/1, identity of connection 0/1 finalized, poll the pending call (start one if none), drop the pending call, deadline passes + poll}; epilogue: finalize both, read everything without blocking", "thorough": "histories of 5 events"},
+          params={"quick": {"ops": 4, "family": "c11"}, "thorough": {"ops": 5, "family": "c11"}}, budget={"quick": 600, "thorough": 3000},
+          required_covers=['c11.router-recv.delivered', 'c11.router-recv.parked']),
     ],
     "assumptions": MIRSYM_TRUST + ["RouterMap histories are enumerated by forking with concrete identities (bounded exhaustive execution of the MIR)"],
     "manifest": {
@@ -699,3 +703,18 @@ def replay(prop, result, failure):
         mirsym_engine.replay_failure(failure)
     elif cex.get("engine") == "cfabmc":
         cfabmc_engine.replay_failure(failure)
+
+# the ROUTER's blocking receive loop: one exploration, each property reports its own clause (param `family`)
+PROPERTIES["C09"]["mirsym"].append(
+    M("c09_router_recv_cancelled", "d_c11", "router_recv_blocking",
+      {"quick": "RouterSocket::recv_logical_finalized in blocking / timed mode (coroutine MIR: the loop around a biased tokio::select! over the identity-finalized Notify, AddressedIngressEngine::pop and the RCVTIMEO deadline) over the real ingress engine with two connections; RCVTIMEO -1 or any positive value (symbolic); symbolic monotone clock read by Instant::now() and by every timer arming, sleep_until / sleep recording what they were armed with; all histories of 4 events from {message arrives on connection 0/1, identity of connection 0/1 finalized, poll the pending call (start one if none), drop the pending call, deadline passes + poll}; epilogue: finalize both, read everything without blocking", "thorough": "histories of 5 events"},
+      params={"quick": {"ops": 4, "family": "c09"}, "thorough": {"ops": 5, "family": "c09"}}, budget={"quick": 600, "thorough": 3000},
+      required_covers=['c09.router-recv.dropped-a-pending-call']))
+PROPERTIES["C14"]["mirsym"].append(
+    M("c14_router_recv_timeouts", "d_c11", "router_recv_blocking",
+      {"quick": "RouterSocket::recv_logical_finalized in blocking / timed mode (coroutine MIR: the loop around a biased tokio::select! over the identity-finalized Notify, AddressedIngressEngine::pop and the RCVTIMEO deadline) over the real ingress engine with two connections; RCVTIMEO -1 or any positive value (symbolic); symbolic monotone clock read by Instant::now() and by every timer arming, sleep_until / sleep recording what they were armed with; all histories of 4 events from {message arrives on connection 0/1, identity of connection 0/1 finalized, poll the pending call (start one if none), drop the pending call, deadline passes + poll}; epilogue: finalize both, read everything without blocking", "thorough": "histories of 5 events"},
+      params={"quick": {"ops": 4, "family": "c14"}, "thorough": {"ops": 5, "family": "c14"}}, budget={"quick": 600, "thorough": 3000},
+      required_covers=['c14.router-recv.timed-out']))
+PROPERTIES["C09"]["manifest"]["text"] += " ROUTER: a recv dropped at any poll of its wait loop (identity gate, held messages of not-yet-identified connections) loses nothing: every message that arrived is still returned exactly once, per connection in order."
+PROPERTIES["C14"]["manifest"]["text"] += " ROUTER recv: the wait loop arms its timer so that it expires RCVTIMEO after the call started, however many times the loop goes round (peers attaching, identities finalized, messages of unidentified connections held) - and none for RCVTIMEO -1; once the deadline has passed the call returns Timeout or a message."
+PROPERTIES["C11"]["manifest"]["text"] += " The blocking receive loop of the ROUTER keeps the identity gate too: only messages of connections whose identity is final are returned, per connection in arrival order, and the call does not stay parked while such a message waits."
